@@ -147,6 +147,38 @@ def check(rng, deep):
                 ss2 = flat.solve_steady_state({**mm.CALIB, **{k: ss[k] for k in unknowns}}, {k: float(ss[k]) for k in unknowns}, targets, solver=solver)
                 if max(abs(ss2[k] - ss[k]) for k in ('k', 'p', 'c')) > 1e-7 or any(abs(ss2[t] - (ss2[v] if isinstance(v, str) else v)) > 1e-7 for t, v in tv.items()):
                     C.push(out, dict(what='re-solving from the solution moves away from it / misses the targets', input=inp, observed={k: float(ss2[k]) for k in unknowns}, signature=dict(op='warm-start', solver=solver)))
+    # numeric targets of every real scalar kind (python int, numpy integer, numpy float32, float): "a number" is not only a python float
+    import os, sys, importlib
+    dmod = os.path.join(C.WORK, 'models')
+    os.makedirs(dmod, exist_ok=True)
+    with open(os.path.join(dmod, 'verif_c07_tiny.py'), 'w') as f:
+        f.write('from sequence_jacobian import simple\n\n@simple\ndef tiny_fg(x, y):\n    f = x + 2 * y\n    g = x * y\n    return f, g\n\n@simple\ndef tiny_e(x):\n    excess = x ** 3 - 7\n    return excess\n')
+    if dmod not in sys.path:
+        sys.path.insert(0, dmod)
+    importlib.invalidate_caches()
+    sys.modules.pop('verif_c07_tiny', None)
+    tm = importlib.import_module('verif_c07_tiny')
+    from sequence_jacobian import combine
+    fg, ex = combine([tm.tiny_fg], name='tiny_fg_model'), combine([tm.tiny_e], name='tiny_e_model')
+    for solver in ('broyden_custom', 'newton_custom', 'hybr'):
+        for kind, five, two in (('int', 5, 2), ('np.int64', np.int64(5), np.int64(2)), ('mixed int/float', 5, 2.0), ('np.float32', np.float32(5), np.float32(2)), ('float', 5.0, 2.0)):
+            n += 1
+            inp = dict(kind='numeric-target-kinds', solver=solver, targets={'f': f'{kind} 5', 'g': f'{kind} 2'}, unknowns={'x': 3.5, 'y': 0.7})
+            try:
+                ss = fg.solve_steady_state({}, {'x': 3.5, 'y': 0.7}, {'f': five, 'g': two}, solver=solver)
+                if abs(ss['f'] - 5) > 1e-7 or abs(ss['g'] - 2) > 1e-7:
+                    C.push(out, dict(what='a numeric target that is not a python float is not hit', input=inp, observed=dict(f=float(ss['f']), g=float(ss['g'])), expected=dict(f=5, g=2), signature=dict(op='target-kind', solver=solver)))
+            except Exception as ex_:
+                C.push(out, dict(what=f'solve_steady_state with a numeric target that is not a python float raised {type(ex_).__name__}: {ex_}', input=inp, signature=dict(op='target-kind', solver=solver)))
+    for kind, one in (('int', 1), ('np.int64', np.int64(1)), ('float', 1.0)):
+        n += 1
+        inp = dict(kind='numeric-target-kinds', solver='brentq', targets={'excess': f'{kind} 1'}, unknowns={'x': [0.0, 3.0]})
+        try:
+            ss = ex.solve_steady_state({}, {'x': (0.0, 3.0)}, {'excess': one}, solver='brentq')
+            if abs(ss['excess'] - 1) > 1e-9 or abs(ss['x'] - 2.0) > 1e-9:
+                C.push(out, dict(what='a numeric target that is not a python float is not hit (brentq)', input=inp, observed=dict(excess=float(ss['excess']), x=float(ss['x'])), expected=dict(excess=1, x=2), signature=dict(op='target-kind', solver='brentq')))
+        except Exception as ex_:
+            C.push(out, dict(what=f'solve_steady_state (brentq) with a numeric target that is not a python float raised {type(ex_).__name__}: {ex_}', input=inp, signature=dict(op='target-kind', solver='brentq')))
     ss = flat.solve_steady_state(dict(mm.CALIB, k=3.0), {'p': (-2.0, 2.0)}, {'res_p': 0.0}, solver='brentq')
     n += 1
     if abs(ss['res_p']) > 1e-9 or not (-2 <= ss['p'] <= 2):
